@@ -245,6 +245,7 @@ def run(F, rep, tier="quick", extra=None, only=None):
             rep.ob("SHAPE-FWD", key, not problems, "; ".join(problems) if problems else "premultiply → PreAlpha::%s(src, dst) → unpremultiply" % op, F.loc(b))
     rep.floor("Compose dispatchers", n_disp, 12)
     check_blend_inputs(F, rep)
+    check_straight_pre_conversions(F, rep)
     return {"level": "proof"}
 
 
@@ -289,6 +290,70 @@ def check_blend_inputs(F, rep):
                     problems.append("%s = %s, expected %s" % (f, got, {"color": "the straight colour", "color_pre": "the premultiplied colour", "alpha": "the alpha"}[f]))
         rep.ob("INPUT", key, not problems, "; ".join(problems) if problems else alg._short(v, 300), F.loc(b))
     rep.floor("BlendInput constructors", n, 3)
+
+
+def check_straight_pre_conversions(F, rep):
+    """CONV: every public conversion between a straight colour and its premultiplied form is premultiply / unpremultiply itself:
+    `C::from(PreAlpha<C>)` (macro impl_premultiply!, 9 types) divides every component by alpha under the valid-divisor guard and gives 0
+    otherwise; PreAlpha::new / From<Alpha> premultiply, From<C> / new_opaque attach full alpha, PreAlpha::unpremultiply / From<PreAlpha> for
+    Alpha unpremultiply.  (A forwarder that returns `premultiplied.color` as it is breaks premultiply-then-unpremultiply for 0 < alpha < 1.)"""
+    S = Session(F)
+    R = S.R
+    U = r"blend::Premultiply::unpremultiply<C>\(mk:PreAlpha\{alpha,color\}\(c\.alpha, c\.color\)\)"
+    M = r"stimulus::Stimulus::max_intensity<<C as blend::Premultiply>::Scalar>"
+    UNP = r"Alpha\{color: proj\.0\(%s\), alpha: proj\.1\(%s\)\}" % (U, U)
+    EXPECT = {
+        "new": r"blend::Premultiply::premultiply<C>\(c, a\)",
+        "new_opaque": r"(PreAlpha\{color: c, alpha: %s\}|blend::Premultiply::premultiply<C>\(c, %s\))" % (M, M),
+        "unpremultiply": UNP,
+        "from<Alpha>": r"blend::Premultiply::premultiply<C>\(c\.color, c\.alpha\)",
+        "Alpha::from<PreAlpha>": UNP,
+        "from<C>": r"(PreAlpha\{color: c, alpha: %s\}|blend::Premultiply::premultiply<C>\(c, %s\))" % (M, M),
+    }
+    n = n9 = 0
+    for b in F.bodies:
+        im = b.get("_impl")
+        if "::test" in b["path"] or im is None or b["dk"] not in ("Fn", "AssocFn"):
+            continue
+        if b["file"].endswith("macros/blend.rs") and b["name"] == "from" and (im.get("trait") or "").endswith("From"):
+            key = "From<PreAlpha<C>> for %s" % im["self_s"]
+            n9 += 1
+            try:
+                args = S.args(b, ["c"])
+                v, _ = S.ev.eval_body(b, args)
+                c = args[0]
+                if not isinstance(v, Struct):
+                    raise Opaque("not a struct literal: %s" % alg._short(v, 160))
+                col, al = c.fields["color"], c.fields["alpha"]
+                exp = Struct(v.path, {f: (R.ite(R.valid(al), R.div(col.fields[f], al), 0) if f in col.fields and not isinstance(col.fields[f], Struct) else x)
+                                      for f, x in v.fields.items()})
+                check_value(rep, "CONV", key, S, b, v, exp, sample="every component: alpha valid divisor ? c/alpha : 0")
+            except (Opaque, poly.TooBig, KeyError, AttributeError) as ex:
+                rep.fail("CONV", key, "uninterpretable: %s" % ex, F.loc(b))
+            continue
+        if not b["file"].endswith("blend/pre_alpha.rs") or b["name"] not in ("new", "new_opaque", "unpremultiply", "from"):
+            continue
+        which = b["name"]
+        if which == "from":
+            src = (im.get("trait_args_s") or ["?"])[0]
+            if im["self_s"].startswith("alpha::alpha::Alpha<"):
+                which = "Alpha::from<PreAlpha>"
+            elif src.startswith("alpha::alpha::Alpha<"):
+                which = "from<Alpha>"
+            elif src == "C":
+                which = "from<C>"
+            else:
+                rep.fail("CONV", "PreAlpha::from<%s>" % src, "conversion without a reference", F.loc(b))
+                continue
+        n += 1
+        try:
+            v, _ = S.ev.eval_body(b, S.args(b, ["c", "a"]))
+            got = alg._short(v, 600)
+            rep.ob("CONV", "PreAlpha::" + which, re.fullmatch(EXPECT[which], got) is not None, got, F.loc(b))
+        except (Opaque, poly.TooBig) as ex:
+            rep.fail("CONV", "PreAlpha::" + which, "uninterpretable: %s" % ex, F.loc(b))
+    rep.floor("C::from(PreAlpha<C>) impls", n9, 9)
+    rep.floor("PreAlpha constructors / conversions", n, 6)
 
 
 def _find_apps(v, pred, out=None):
